@@ -88,6 +88,50 @@ mutual
     | f, c :: rest => balance lang f c :: balanceL lang f rest
 end
 
+/-! ## The hypothesis of `balance_summarized` (decidable; evaluated on every real rebalancing case) -/
+
+/-- The production aliases nothing. -/
+def aliasFree (lang : Lang) (pid : Nat) : Bool := pid == 0 || (lang.aliasSeqs.getD pid #[]).all (· == 0)
+
+/-- What a rotated node must be for a rotation to leave the summaries of the nodes above unchanged:
+hidden, not an extra, not MISSING, and its production aliases none of its children (the auxiliary
+repeat symbols the generator emits are like that). -/
+def rotP (lang : Lang) (d : NodeData) : Bool := !d.visible && !d.extra && !d.isMissing && aliasFree lang d.productionId
+
+mutual
+  /-- Every INNER node with symbol `sym` in the tree satisfies `rotP`. -/
+  def allSym (lang : Lang) (sym : Nat) : Tree → Bool
+    | .mk d kids => (d.symbol != sym || kids.isEmpty || rotP lang d) && allSymL lang sym kids
+  def allSymL (lang : Lang) (sym : Nat) : List Tree → Bool
+    | [] => true
+    | c :: rest => allSym lang sym c && allSymL lang sym rest
+end
+
+/-- The nodes `ts_subtree_compress` may rotate in `t` (all have the symbol of `t`) are hidden,
+non-extra, alias-free, and the symbol is not an error symbol. -/
+def rotOK (lang : Lang) (t : Tree) : Bool := !isErrSym t.data.symbol && allSym lang t.data.symbol t
+
+/-- Does `balanceNode` call `ts_subtree_compress` on this tree? -/
+def compressesAt (t : Tree) : Bool :=
+  decide (t.data.repeatDepth > 0) &&
+    (match t.kids.head?, t.kids.getLast? with
+     | some c1, some c2 => decide (c1.data.repeatDepth > c2.data.repeatDepth)
+     | _, _ => false)
+
+mutual
+  /-- The hypothesis of `balance_summarized`, checked ALONG the computation of `balance`: wherever the
+  driver loop calls `ts_subtree_compress` (on the tree as it is at that moment), the rotated nodes are
+  hidden, non-extra and alias-free (`rotOK`). -/
+  def balanceOK (lang : Lang) : Nat → Tree → Bool
+    | 0, _ => true
+    | f + 1, t =>
+      if t.kids.isEmpty || t.data.refCount != 1 then true else
+      (!compressesAt t || rotOK lang t) && balanceOKL lang f (balanceNode lang t).kids
+  def balanceOKL (lang : Lang) : Nat → List Tree → Bool
+    | _, [] => true
+    | f, c :: rest => balanceOK lang f c && balanceOKL lang f rest
+end
+
 /-! ## The leaf sequence -/
 
 mutual
